@@ -68,6 +68,10 @@ class Gen:
             return 10 ** length - 1
         if r < 0.35:
             return 0
+        if r < 0.45:
+            return -(10 ** length - 1)          # the limit is on the digits, not on the sign
+        if r < 0.55:
+            return -rng.randint(0, 10 ** length - 1)
         return rng.randint(0, 10 ** length - 1)
 
     def dec(self, qexp):
@@ -183,7 +187,7 @@ class Gen:
             if sign in present:
                 present[sign] = True
         if extra == "sonrq":
-            if "userkey" in force or rng.random() < 0.2:
+            if "userkey" in force or (not ({"userid", "userpass"} & force) and rng.random() < 0.2):
                 present.update(userid=False, userpass=False, userkey=True)
             else:
                 present.update(userid=True, userpass=True, userkey=False)
